@@ -43,6 +43,7 @@ struct inputs {
 	int step[NSTEP];
 	uint8_t raw[NSTEP][EVMAX];
 	int stale_jumbo;
+	uint8_t stale_nil;
 };
 V_INPUTS;
 
@@ -252,6 +253,7 @@ harness(void)
 	max_look_back = 4;             /* as with `-n 4`: the default ring of 10^6 pointers is only allocated, never indexed here */
 #endif
 	g_ev.is_jumbo = IN.stale_jumbo;
+	g_ev.nil = IN.stale_nil;           /* emu_ev() itself must terminate mcv */
 	static char a0[] = TOOLNAME, a1[] = "-o", a2[] = "tracedir";
 	char *argv[5] = { a0, a1, a1, a2, NULL };
 	/* argc so that `optind >= argc` is decided by have_dir after the options were consumed */
